@@ -29,6 +29,9 @@ theorem C12_substring_spec (s : Str) (start len : Int) :
 theorem C12_balanced_specials_closed (s : Str) (h : balanced s = true) : specialsClosed s = true :=
   specialsClosed_of_balanced s h
 
+theorem C12_balanced_specials_closed_nonvacuous :
+    balanced ex1 = true ∧ specialsClosed ex1 = true := by decide
+
 /-- Scanning is lossless: concatenating the tokens gives the string back whenever every special
 character is closed (in particular on balanced input); in general the only difference is one
 `}` appended after an unclosed special character. -/
@@ -217,10 +220,18 @@ theorem C12_prefix_is_prefix_nonvacuous :
     bibtexPrefix ex1 5 = some ("ab{\\'e x}{c " ++ "}").toList ∧ specialsClosed ex1 = true ∧
       "ab{\\'e x}{c ".toList <+: ex1 ∧ depthSat 0 "ab{\\'e x}{c ".toList = 1 := by decide
 
+/-- the unclosed-special-character branch of `C12_prefix_is_prefix` -/
+theorem C12_prefix_is_prefix_nonvacuous' :
+    bibtexPrefix "{\\a{b".toList 1 = some "{\\a{b}".toList ∧ specialsClosed "{\\a{b".toList = false := by
+  decide
+
 /-- where the brace depth never goes negative, the saturating depth `depthSat` used above is the
 brace depth -/
 theorem C12_depthSat_depthAfter (q : Str) (e : Nat) (h : depthAfter 0 q = some e) : depthSat 0 q = e :=
   depthSat_of_depthAfter q 0 e h
+
+theorem C12_depthSat_depthAfter_nonvacuous :
+    depthAfter 0 "ab{\\'e x}{c ".toList = some 1 ∧ depthSat 0 "ab{\\'e x}{c ".toList = 1 := by decide
 
 /-! ### purify -/
 
@@ -237,7 +248,11 @@ theorem C12_purify_range (s p : Str) (h : bibtexPurify s = some p) :
 theorem C12_purify_idem (s p : Str) (h : bibtexPurify s = some p) : bibtexPurify p = some p :=
   purify_fixed p (C12_purify_range s p h)
 
-theorem C12_purify_nonvacuous : bibtexPurify ex1 = some "abexc de".toList := by decide
+theorem C12_purify_range_nonvacuous : bibtexPurify ex1 = some "abexc de".toList := by decide
+
+theorem C12_purify_idem_nonvacuous :
+    bibtexPurify ex1 = some "abexc de".toList ∧
+      bibtexPurify "abexc de".toList = some "abexc de".toList := by decide
 
 /-! ### case change -/
 
@@ -254,6 +269,9 @@ theorem C12_case_letters (s r : Str) (m : CaseMode) (hs : specialsClosed s = tru
 theorem C12_case_len_partial (s r : Str) (m : CaseMode) (hs : specialsClosed s = true)
     (h : changeCase s m = some r) : r.length = s.length :=
   length_eq_of_lower_eq (C12_case_letters s r m hs h)
+
+theorem C12_case_letters_nonvacuous :
+    specialsClosed ex1 = true ∧ changeCase ex1 .u = some "AB{\\'e X}{c d}E".toList := by decide
 
 theorem C12_case_len_partial_nonvacuous :
     specialsClosed ex1 = true ∧ changeCase ex1 .u = some "AB{\\'e X}{c d}E".toList := by decide
@@ -321,7 +339,57 @@ theorem C12_case_braces (s r : Str) (m : CaseMode) (toks : List Tok) (hs : scan 
   exact ⟨caseToks m .start toks, changeCaseAux_eq m toks .start, caseToks_rel m toks .start⟩
 
 theorem C12_case_braces_nonvacuous :
-    changeCase "a{\\'e X \\AA}{c d}{{\\o}}".toList .u = some "A{\\'e X \\AA}{c d}{{\\o}}".toList := by
+    changeCase "a{\\'e x \\aa}{c d}{{\\o}}".toList .u = some "A{\\'e X \\aa}{c d}{{\\o}}".toList := by
   decide
+
+/-! ### top-level splitting -/
+
+/-- top-level splitting never splits inside braces: on balanced input every part is balanced -/
+theorem C12_split_braces (sep : Sep) (s : Str) (hb : balanced s = true) :
+    ∀ p ∈ splitTexRaw sep s, balanced p = true := by
+  by_cases hs : s = []
+  · subst hs; intro p hp; simp [splitTexRaw, splitLoop_succ, headStep, finish] at hp
+  · simp only [balanced, decide_eq_true_eq] at hb
+    obtain ⟨p, ps, h1, _, h3⟩ := splitLoop_main sep (s.length + 1) s none (by omega) hb (Or.inl hs)
+    rw [splitTexRaw, h1]
+    exact h3
+
+/-- top-level splitting drops only separators: on balanced input the input is the parts in order
+with one separator match between consecutive parts (nothing for the empty string) -/
+theorem C12_split_drops_seps (sep : Sep) (s : Str) (hb : balanced s = true) :
+    (s = [] → splitTexRaw sep s = []) ∧
+    (s ≠ [] → SplitsTo
+      (match sep with
+        | .space => isSpaceSep
+        | .comma => fun m => m == [',']
+        | .hyphen => fun m => m == ['-']
+        | .and => isAndSep) s (splitTexRaw sep s)) := by
+  constructor
+  · intro hs; subst hs; simp [splitTexRaw, splitLoop_succ, headStep, finish]
+  · intro hs
+    simp only [balanced, decide_eq_true_eq] at hb
+    obtain ⟨p, ps, h1, h2, _⟩ := splitLoop_main sep (s.length + 1) s none (by omega) hb (Or.inl hs)
+    rw [splitTexRaw, h1]
+    cases sep <;> exact h2
+
+theorem C12_split_braces_nonvacuous :
+    balanced "ab{\\'e x}{c d}e fg~ h".toList = true ∧
+      splitTexRaw .space "ab{\\'e x}{c d}e fg~ h".toList =
+        ["ab{\\'e x}{c d}e".toList, "fg".toList, "h".toList] ∧
+      splitTexRaw .and "{a and b} And c".toList = ["{a and b}".toList, "c".toList] := by
+  decide +kernel
+
+theorem C12_split_drops_seps_nonvacuous :
+    balanced "a, {b, c},d".toList = true ∧
+      splitTexRaw .comma "a, {b, c},d".toList = ["a".toList, " {b, c}".toList, "d".toList] := by
+  decide +kernel
+
+/-- the fuel of the two loops of the model (length + 1) is never exhausted: more fuel gives the
+same result -/
+theorem C12_split_fuel (sep : Sep) (s : Str) (fuel : Nat) (h : s.length < fuel) :
+    splitLoop sep fuel s [] none = splitTexRaw sep s ∧
+    reSplitAux sep fuel none [] s = reSplit sep s :=
+  ⟨splitLoop_fuel sep fuel (s.length + 1) s [] none h (by omega),
+   reSplitAux_fuel sep fuel (s.length + 1) none [] s h (by omega)⟩
 
 end Pybtex.Props
